@@ -1,6 +1,7 @@
 package checks
 
 import (
+	"crypto"
 	"crypto/ecdsa"
 	"crypto/ed25519"
 	"crypto/elliptic"
@@ -534,6 +535,11 @@ func c14chain(rec *mon.Recorder, r *mon.Rand, k c14key, idx int) {
 			return
 		}
 	}
+	// ---- the signer and the verifier are the key they were built from: what the Key variable is used for
+	// afterwards (another key decoded into it, its d wiped, the variable cleared) has no bearing on them ----
+	if c14keptSignerStep(rec, r, &sk2, &pk2, ver, k.pub, idx, in, fail) {
+		return
+	}
 	rec.Event("chain-complete")
 	rec.Class(fmt.Sprintf("%s/%s/%s|%s", curve, k.class, deco, deco2))
 	if idx%40 == 0 {
@@ -657,6 +663,79 @@ func c14ed(rec *mon.Recorder, r *mon.Rand, priv ed25519.PrivateKey, idx int) {
 		fail("sign-verify-through-key", err)
 		return
 	}
+	if c14keptSignerStep(rec, r, &sk2, &pk2, verifier, pub, idx, in, fail) {
+		return
+	}
 	rec.Event("chain-complete")
 	rec.Class("Ed25519/" + deco)
+}
+
+// c14keptSignerStep builds a signer from the (decoded) private Key, then re-uses the Key variable in one
+// of several ways, and signs: the signature must still verify under the verifier of the original public
+// half and under the standard library. Returns true when the chain was failed.
+func c14keptSignerStep(rec *mon.Recorder, r *mon.Rand, sk *cose.Key, pk *cose.Key, ver cose.Verifier, pub crypto.PublicKey, idx int, in map[string]any, fail func(string, error)) bool {
+	var signer cose.Signer
+	var err error
+	if guard(rec, "Key.Signer", in, func() { signer, err = sk.Signer() }) {
+		return true
+	}
+	if err != nil {
+		fail("signer-from-key", err)
+		return true
+	}
+	how := idx % 4
+	names := []string{"another-key-decoded-into-the-variable", "d-wiped-in-place", "variable-cleared", "params-entry-removed"}
+	if guard(rec, "re-use of the Key variable", in, func() {
+		switch how {
+		case 0:
+			var other cose.Key
+			switch p := pub.(type) {
+			case *ecdsa.PublicKey:
+				o, e := cose.NewKeyFromPrivate(gen.ECKey(p.Curve, r))
+				if e != nil {
+					return
+				}
+				other = *o
+			default:
+				o, e := cose.NewKeyFromPrivate(gen.EdKey(r))
+				if e != nil {
+					return
+				}
+				other = *o
+			}
+			if b, e := other.MarshalCBOR(); e == nil {
+				_ = sk.UnmarshalCBOR(b)
+			}
+		case 1:
+			for _, lbl := range []any{int64(-4), int64(-2), int64(-3)} {
+				if d, ok := sk.Params[lbl].([]byte); ok && lbl == int64(-4) {
+					for i := range d {
+						d[i] = 0
+					}
+				}
+			}
+		case 2:
+			*sk = cose.Key{}
+		case 3:
+			delete(sk.Params, int64(-4))
+		}
+	}) {
+		return true
+	}
+	msg := r.Bytes(21)
+	var sig []byte
+	if guard(rec, "Signer.Sign(after the Key variable was re-used)", in, func() { sig, err = signer.Sign(gen.Entropy, msg) }) {
+		return true
+	}
+	rec.Event("signer-outlives-key-variable:" + names[how])
+	if err != nil {
+		fail("signer-broken-by-reuse-of-key-variable/"+names[how], err)
+		return true
+	}
+	if e := ver.Verify(msg, sig); e != nil || !refcrypto.Verify(int64(signer.Algorithm()), pub, msg, sig) {
+		fail("signer-follows-reuse-of-key-variable/"+names[how], e)
+		return true
+	}
+	_ = pk
+	return false
 }
